@@ -124,6 +124,19 @@ Proof.
     rewrite E in X. auto.
 Qed.
 
+(* the stop request may come before any worker has run: cancellation as the very first action is a
+   reachable state of the model (hypothesis of C09_shutdown_bounded), and the pipeline winds down *)
+Example ex_cancel_first :
+  exists p, preach true 3 1 5 p /\ p_cancel p = true /\ p_received p = 0 /\
+            exists p', prun true 3 1 5 p [PDistr false; PWork 0 false; PWork 1 false; PWork 2 false; PDistr false] = Some p' /\
+                       p_d p' = DDone.
+Proof.
+  destruct (prun true 3 1 5 (pinit true) [PCancel]) as [p|] eqn:E; [|discriminate E].
+  exists p. split; [eapply preach_prun; [constructor|exact E]|].
+  vm_compute in E. inversion E; subst. split; [reflexivity|]. split; [reflexivity|].
+  eexists. split; [vm_compute; reflexivity|reflexivity].
+Qed.
+
 (* ---------------- the case decoder of Run.v agrees with a structured literal ---------------- *)
 From CJ Require Import C09.Run.
 Example ex_decoder :
